@@ -222,6 +222,8 @@ inductive PubKeyStep (T : Type) where
   | setPubKey (k : Option Bytes)
   | setSignature (s : Bytes)
   | verify
+  | other     -- any other exported entry point of the package (KeyPairResp.WriteTo, PublicKey.WriteTo,
+              -- VerifySignature, the Property codecs): no effect on the value, nor on the services key
 
 /-- `(*PublicKey).ReadFrom`: the time stamp is stored before the key is parsed; a key that does not parse, or is
     not an RSA key, leaves `PubKey` and `Signature` as they were and returns an error -/
@@ -241,6 +243,7 @@ def pubKeyApply {T : Type} (v : PubKeyVal T) : PubKeyStep T → PubKeyVal T
   | .setPubKey k => { v with pubKey := k }
   | .setSignature s => { v with signature := s }
   | .verify => v
+  | .other => v
 
 /-- `Verify()` on the fields as they are now -/
 def pubKeyVerifyNow {Key T : Type} (sha256 : Bytes → Bytes) (rsaVerify : Key → Bytes → Bytes → Bool) (pubKey : Key)
@@ -291,5 +294,21 @@ def serverEncrypt (sha1 : Bytes → Bytes) (publicKey : Bytes) (i : HandshakeIn)
           | .ok hash => (some hash, if i.httpOk then .ok () else .err)   -- "auth servers down"
           | .err => (none, .err)
           | .panic => (none, .panic)
+
+/-! ### the client side of the login handshake (`bot/login.go`: `handleEncryptionRequest`, `loginAuth`) -/
+
+/-- `handleEncryptionRequest` on an encryption request carrying `serverID`, `publicKey`, a verify token:
+    `sharedSecret` is the 16 bytes `rand.Read` delivered. The session hash goes to the session server FIRST
+    (`loginAuth`), computed from the server id and key bytes exactly as they arrived; only then is the key parsed
+    for the encryption response. Returns the hash sent (if any) and the outcome. -/
+def clientHandshake (sha1 : Bytes → Bytes) (serverID publicKey sharedSecret : Bytes) (joinOk keyParses : Bool) :
+    Option String × Res Unit :=
+  match authDigest sha1 serverID sharedSecret publicKey with
+  | .panic => (none, .panic)
+  | .err => (none, .err)
+  | .ok digest =>
+    if !joinOk then (some digest, .err)              -- "auth fail" / "post fail"
+    else if !keyParses then (some digest, .err)      -- "decode public key fail"
+    else (some digest, .ok ())
 
 end GoMC.Model
